@@ -34,6 +34,23 @@ if [ "${1:-}" = "--replay" ]; then
 fi
 ID="${1:?usage: run.sh <ID> <quick|thorough>}"; TIER="${2:-quick}"
 build "$BIN/verif"
+if [ "$ID" = "C14" ]; then
+  # C14 needs three (thorough: four) builds of the CURRENT tree
+  export VERIF_BIN_PLAIN="$BIN/verif" VERIF_BIN_RACE="$BIN/verif-race" VERIF_BIN_RACE_INSTR="$BIN/verif-race-instr" VERIF_BIN_ASAN="$BIN/verif-asan"
+  build "$VERIF_BIN_RACE" -race
+  # yield-point pass on a scratch copy of the current tree (outside /repo and /verif), removed right after the build
+  SCR="$(mktemp -d /tmp/verif-instr.XXXXXX)"
+  trap 'rm -rf "$SCR" "${MODF:-}" "${MODF:+${MODF%.mod}.sum}"' EXIT
+  PTS="$("$BIN/verif" instr "$VERIF_REPO" "$SCR")" || { echo "BROKEN: yield-point pass failed: $PTS" >&2; exit 4; }
+  export VERIF_INSTR_POINTS="$PTS"
+  IMOD="$BIN/go.instr.$$.mod"
+  sed "s#=> /repo#=> $SCR#" go.mod > "$IMOD"; cp go.sum "${IMOD%.mod}.sum"
+  if ! go build -modfile="$IMOD" -race -o "$VERIF_BIN_RACE_INSTR" ./cmd/verif 2>"$BIN/build.err"; then
+    echo "BROKEN: instrumented copy does not build:" >&2; cat "$BIN/build.err" >&2; rm -f "$IMOD" "${IMOD%.mod}.sum"; exit 4
+  fi
+  rm -rf "$SCR" "$IMOD" "${IMOD%.mod}.sum"
+  if [ "$TIER" = "thorough" ]; then build "$VERIF_BIN_ASAN" -asan; fi
+fi
 ERR="$ROOT/replays/$ID.stderr"
 rm -f "$ERR"
 "$BIN/verif" "$ID" "$TIER" 2>"$ERR"
